@@ -179,8 +179,8 @@ func c02Persist(p *Prog, r *Report) {
 			}
 		})
 	}
-	r.Floor("R3p", "FeatureRemote.UpdateData call sites", nRemote, 3)
-	r.Floor("R3p", "UpdateDataAny call sites of the features", nLocal, 2)
+	r.Floor("R3p", "FeatureRemote.UpdateData call sites", nRemote, 1)
+	r.Floor("R3p", "UpdateDataAny call sites of the features", nLocal, 1)
 }
 
 // c02Tables: key kinds, item field kinds, selector/item compatibility.
